@@ -317,8 +317,9 @@ pub fn run(tier: &str) -> i32 {
                 }
             }
         }
-        let unbounded_ok = thorough || space <= 500_000.0;
-        let bounds: Vec<Option<usize>> = if unbounded_ok { vec![Some(0), Some(1), Some(2), None] } else { vec![Some(0), Some(1), Some(2), Some(3), Some(4)] };
+        // the unbounded space is explored when it is small enough; otherwise the preemption bound is iterated
+        let unbounded_ok = space <= if thorough { 3.0e7 } else { 5.0e5 };
+        let bounds: Vec<Option<usize>> = if unbounded_ok { vec![Some(0), Some(1), Some(2), None] } else if thorough { vec![Some(0), Some(1), Some(2), Some(3), Some(4), Some(5)] } else { vec![Some(0), Some(1), Some(2), Some(3), Some(4)] };
         let pf = prefixes(&lens, 4.min(total_ops));
         let mut completed = vec![];
         for b in bounds {
@@ -370,6 +371,125 @@ pub fn run(tier: &str) -> i32 {
         rep.sample(json!({"group": name, "actors": specs.iter().map(describe).collect::<Vec<_>>(), "solo_sequence_of_actor_0": solos[0]}));
     }
     rep.machine(total_steps, total_steps, total_schedules);
+
+    // (A2) thread hand-offs on REAL OS threads: every operation of every interleaving is run on one of two
+    // fresh OS threads, for every assignment of operations to threads. The calls are strictly sequential (the
+    // main thread waits for each one), so the execution is deterministic; what varies is WHICH thread runs a
+    // call - values are moved between threads mid-way in every possible pattern. shuttle cannot see this: its
+    // "threads" share one OS thread, so state kept in a std thread_local! looks shared to every task.
+    {
+        use std::sync::mpsc;
+        type Job = (usize, Actor);
+        let gs = groups();
+        let mut total_exec = 0u64;
+        for gname in ["identical", "near-flops", "other-flop-same-ranges"] {
+            let specs: Vec<Spec> = gs.iter().find(|g| g.0 == gname).unwrap().1.iter().map(|s| match s {
+                Spec::Eval { cfg, scope, .. } => Spec::Eval { cfg: cfg.clone(), scope: (scope.0, scope.1, scope.2, scope.3.min(scope.1 + 2)), extra: 0 },
+                o => o.clone(),
+            }).collect();
+            let solos: Vec<Vec<String>> = specs.iter().map(solo_safe).collect();
+            let lens: Vec<usize> = solos.iter().map(|s| s.len()).collect();
+            let total_ops: usize = lens.iter().sum();
+            if total_ops > 10 {
+                continue;
+            }
+            let mut scheds: Vec<Vec<u8>> = vec![];
+            enumerate(&lens, &[], None, &mut |s: &[u8]| scheds.push(s.to_vec()));
+            let n_assign = 1usize << total_ops;
+            let outs = par_map(scheds.len(), |si| {
+                let sched = &scheds[si];
+                let mut bad: Vec<(usize, Value)> = vec![];
+                let mut n = 0u64;
+                for assign in 0..n_assign {
+                    n += 1;
+                    // two fresh worker threads per execution
+                    let mut txs = vec![];
+                    let (back_tx, back_rx) = mpsc::channel::<(usize, Option<Actor>, String)>();
+                    let mut handles = vec![];
+                    for _w in 0..2 {
+                        let (tx, rx) = mpsc::channel::<Job>();
+                        let back = back_tx.clone();
+                        txs.push(tx);
+                        handles.push(std::thread::spawn(move || {
+                            while let Ok((ai, mut actor)) = rx.recv() {
+                                let r = catch(std::panic::AssertUnwindSafe(|| {
+                                    let o = actor.step();
+                                    (actor, o)
+                                }));
+                                match r {
+                                    Ok((actor, o)) => {
+                                        let _ = back.send((ai, Some(actor), o));
+                                    }
+                                    Err(e) => {
+                                        let _ = back.send((ai, None, format!("PANIC: {}", e)));
+                                    }
+                                }
+                            }
+                        }));
+                    }
+                    let mut actors: Vec<Option<Actor>> = specs.iter().map(|s| Some(Actor::new(s))).collect();
+                    let mut pos = vec![0usize; specs.len()];
+                    let mut failure: Option<Value> = None;
+                    for (step, &a) in sched.iter().enumerate() {
+                        let a = a as usize;
+                        let w = (assign >> step) & 1;
+                        let actor = match actors[a].take() {
+                            Some(x) => x,
+                            None => break,
+                        };
+                        if txs[w].send((a, actor)).is_err() {
+                            failure = Some(json!({"step": step, "problem": "worker thread died"}));
+                            break;
+                        }
+                        match back_rx.recv() {
+                            Ok((ai, actor, o)) => {
+                                actors[ai] = actor;
+                                let k = pos[ai];
+                                if solos[ai].get(k) != Some(&o) {
+                                    failure = Some(json!({"step": step, "actor": ai, "actor_operation": k, "ran_on_thread": w, "observed": o, "alone": solos[ai].get(k)}));
+                                    break;
+                                }
+                                pos[ai] += 1;
+                            }
+                            Err(_) => {
+                                failure = Some(json!({"step": step, "problem": "worker thread died"}));
+                                break;
+                            }
+                        }
+                    }
+                    // dropping the remaining actors on the main thread, then the workers
+                    drop(actors);
+                    drop(txs);
+                    for h in handles {
+                        let _ = h.join();
+                    }
+                    if let Some(f) = failure {
+                        if bad.len() < 2 {
+                            bad.push((assign, f));
+                        }
+                    }
+                }
+                (bad, n)
+            });
+            let mut n = 0u64;
+            for (si, (bad, k)) in outs.into_iter().enumerate() {
+                n += k;
+                for (assign, f) in bad {
+                    let threads: String = (0..total_ops).map(|i| if (assign >> i) & 1 == 1 { 'B' } else { 'A' }).collect();
+                    rep.violation(Violation {
+                        key: format!("group={} schedule={} threads={}", gname, scheds[si].iter().map(|x| x.to_string()).collect::<String>(), threads),
+                        sub: "thread-handoffs".into(),
+                        case: json!({"group": gname, "schedule": scheds[si], "threads": threads}),
+                        expected: json!("each actor observes its solo sequence whichever OS thread runs each of its calls"),
+                        observed: f,
+                    });
+                }
+            }
+            total_exec += n;
+            rep.sub(&format!("thread-handoffs/{}", gname), &format!("real OS threads: actors with {:?} operations; every interleaving x every assignment of each operation to one of two fresh OS threads (2^{}), calls strictly sequential; each observation compared with the solo sequence", lens, total_ops), n, n, true, json!({"interleavings": scheds.len(), "thread_assignments": n_assign}));
+        }
+        rep.machine(total_exec, total_exec, total_exec);
+    }
 
     // (B) real threads under shuttle's exhaustive DFS scheduler
     let bin = std::env::var("VERIF_SCHED_BIN").expect("VERIF_SCHED_BIN");
